@@ -519,9 +519,13 @@ def run_pipeline_spied(case):
             right = None
             if _m.right_disp_map == "cross_checking_accurate":
                 right = grab(_m.right_disparity) if on_disp else grab(_m.right_cv)
+            with_right = right is not None
             snaps.append({"step": input_step, "left": left, "right": right,
                           "disp": grab(_m.left_disparity, "disparity_map") if on_disp else None,
-                          "cv": grab(_m.left_cv, "cost_volume") if (_m.left_cv is not None and not on_disp) else None})
+                          "cv": grab(_m.left_cv, "cost_volume") if (_m.left_cv is not None and not on_disp) else None,
+                          "disp_r": grab(_m.right_disparity, "disparity_map") if (on_disp and with_right) else None,
+                          "cv_r": grab(_m.right_cv, "cost_volume")
+                          if (with_right and _m.right_cv is not None and not on_disp) else None})
             return res
 
         setattr(m, cb, wrapper)
@@ -637,23 +641,27 @@ def part_b(ctx, model):
             # ---- before validation: invalid flag <-> all costs NaN <-> invalid disparity (left side)
             if kind == "validation":
                 seen_validation = True
-            lm_ = sn["left"]
-            if lm_ is not None and sn["cv"] is not None and kind == "matching_cost":
-                allnan = np.all(np.isnan(sn["cv"]), axis=2)
-                flagged = (lm_.astype(np.int64) & INVALID_BEFORE_VALIDATION) != 0
-                if not np.array_equal(allnan, flagged):
-                    i, j = map(int, np.argwhere(allnan != flagged)[0])
-                    ctx.violation("invalid_flag_vs_allnan", f"pipeline {names}: after {name} pixel ({i},{j}) has flag "
-                                  f"{int(lm_[i, j])} but all-costs-NaN is {bool(allnan[i, j])}", replay)
-            if lm_ is not None and sn["disp"] is not None and not seen_validation:
-                d = sn["disp"]
-                isinv = np.isnan(d) if inv_disp == "NaN" else (d == inv_disp)
-                flagged = (lm_.astype(np.int64) & INVALID_BEFORE_VALIDATION) != 0
-                if not np.array_equal(isinv, flagged):
-                    i, j = map(int, np.argwhere(isinv != flagged)[0])
-                    ctx.violation("invalid_flag_vs_invalid_disparity",
-                                  f"pipeline {names}: after {name} (before validation) pixel ({i},{j}) has flag "
-                                  f"{int(lm_[i, j])} and disparity {float(d[i, j])} (invalid_disparity {inv_disp})", replay)
+            # (both sides: the right products carry the same story about the right image)
+            for side_, mkey, ckey, dkey in (("left", "left", "cv", "disp"), ("right", "right", "cv_r", "disp_r")):
+                lm_ = sn[mkey]
+                if lm_ is not None and sn.get(ckey) is not None and kind == "matching_cost":
+                    allnan = np.all(np.isnan(sn[ckey]), axis=2)
+                    flagged = (lm_.astype(np.int64) & INVALID_BEFORE_VALIDATION) != 0
+                    if not np.array_equal(allnan, flagged):
+                        i, j = map(int, np.argwhere(allnan != flagged)[0])
+                        ctx.violation("invalid_flag_vs_allnan" + ("" if side_ == "left" else "_right"),
+                                      f"pipeline {names}: after {name} the {side_} pixel ({i},{j}) has flag "
+                                      f"{int(lm_[i, j])} but all-costs-NaN is {bool(allnan[i, j])}", replay)
+                if lm_ is not None and sn.get(dkey) is not None and not seen_validation:
+                    d = sn[dkey]
+                    isinv = np.isnan(d) if inv_disp == "NaN" else (d == inv_disp)
+                    flagged = (lm_.astype(np.int64) & INVALID_BEFORE_VALIDATION) != 0
+                    if not np.array_equal(isinv, flagged):
+                        i, j = map(int, np.argwhere(isinv != flagged)[0])
+                        ctx.violation("invalid_flag_vs_invalid_disparity" + ("" if side_ == "left" else "_right"),
+                                      f"pipeline {names}: after {name} (before validation) the {side_} pixel ({i},{j}) has "
+                                      f"flag {int(lm_[i, j])} and disparity {float(d[i, j])} (invalid_disparity {inv_disp})",
+                                      replay)
         ctx.case((tuple(names), hashlib.sha1(repr((case["left"], case["right"])).encode()).hexdigest()[:12])
                  if changed_after_disp else None)
         ctx.sample({"kind": "pipeline", "steps": names, "shape": [rows, cols], "window": case["w"],
